@@ -168,6 +168,40 @@ pub fn exec_big(n: &str) -> String {
     }
 }
 
+/// `pack n1,n2,…`: blocks with data of these lengths are queued at the server handler; print,
+/// per message it would send, the number of blocks and the encoded frame size.
+pub fn exec_pack(sizes: &str) -> String {
+    let sizes: Vec<usize> = sizes.split(',').filter(|s| !s.is_empty()).filter_map(|s| s.parse().ok()).collect();
+    let r = catch_unwind(AssertUnwindSafe(|| {
+        let mut pending: Vec<(Vec<u8>, Vec<u8>)> = sizes.iter().map(|n| (vec![1, 0x55, 0x12, 0x20], vec![0xcd; *n])).collect();
+        let mut out = vec![];
+        let mut guard = 0;
+        while !pending.is_empty() {
+            let (msg, rest) = v::pack_next(pending);
+            let mut buf = BytesMut::new();
+            if v::codec_encode(&msg, &mut buf).is_err() {
+                return "enc-err".to_string();
+            }
+            out.push(format!("{}:{}", msg.payload.len(), buf.len()));
+            pending = rest;
+            guard += 1;
+            if guard > 10_000 {
+                return "no-progress".to_string();
+            }
+        }
+        let mut s = "frames".to_string();
+        for o in out {
+            s.push(' ');
+            s.push_str(&o);
+        }
+        s
+    }));
+    match r {
+        Ok(s) => s,
+        Err(e) => format!("panic:{}", panic_msg(e)),
+    }
+}
+
 /// Execute one pure op line.
 pub fn exec_pure(line: &str) -> String {
     let toks: Vec<&str> = line.trim_end_matches('\n').split(' ').collect();
@@ -176,6 +210,7 @@ pub fn exec_pure(line: &str) -> String {
         ["enc", m] => exec_enc(m),
         ["chunks", h, cuts] => exec_chunks(h, cuts),
         ["big", n] => exec_big(n),
+        ["pack", sizes] => exec_pack(sizes),
         _ => crate::cidexec::exec_cid(&toks).unwrap_or_else(|| "bad-op".into()),
     }
 }
